@@ -68,16 +68,16 @@ Definition dpiece_okb (p : dpiece) : bool :=
 
 
 (* ---- executable check for the general tag opener -------------------------------------------------------------- *)
-Fixpoint name_run_b (eq : bool) (n : list Z) (nxt : Z) : bool :=
+Fixpoint name_run_b (pi eq : bool) (n : list Z) (nxt : Z) : bool :=
   match n with
   | [] => true
-  | c :: t => negb (name_stop eq c (match t with [] => nxt | c1 :: _ => c1 end)) && name_run_b eq t nxt
+  | c :: t => negb (name_stop pi eq c (match t with [] => nxt | c1 :: _ => c1 end)) && name_run_b pi eq t nxt
   end.
 
-Definition name_end_b (eq : bool) (l : list Z) : bool :=
+Definition name_end_b (pi eq : bool) (l : list Z) : bool :=
   match l with
   | [] => false
-  | c :: t => name_stop eq c (getz t 0) && (negb ((c =? 47) || (c =? 63)) || match t with [] => false | _ => true end)
+  | c :: t => name_stop pi eq c (getz t 0) && (negb ((c =? 47) || (c =? 63)) || match t with [] => false | _ => true end)
   end.
 
 Fixpoint next_not_eq_b (l : list Z) : bool :=
@@ -86,27 +86,45 @@ Fixpoint next_not_eq_b (l : list Z) : bool :=
   | c :: t => if is_ws c then next_not_eq_b t else negb (c =? 61)
   end.
 
+Fixpoint no_pi_end_b (l : list Z) : bool :=
+  match l with
+  | c :: ((c1 :: _) as t) => negb ((c =? 63) && (c1 =? 62)) && no_pi_end_b t
+  | _ => true
+  end.
+
+Lemma no_pi_end_b_sound l : no_pi_end_b l = true -> no_pi_end l.
+Proof.
+  induction l as [|c t IH]; [intros _; exact I|]. destruct t as [|c1 t']; [intros _; exact I|].
+  cbn [no_pi_end_b no_pi_end]. intros H. apply andb_true_iff in H. destruct H as (H1 & H2).
+  split; [lia|apply IH; exact H2].
+Qed.
+
 Definition nil_b (l : list Z) : bool := match l with [] => true | _ => false end.
 
-Definition gattr_okb (a : gattr) (rest : list Z) : bool :=
+Definition gattr_okb (pi : bool) (a : gattr) (rest : list Z) : bool :=
   all_ws_b (g_lead a) &&
   match g_val a with
-  | VNone => negb (nil_b (g_name a)) && name_run_b true (g_name a) (getz rest 0) && name_end_b true rest && next_not_eq_b rest
+  | VNone => negb (nil_b (g_name a)) && name_run_b pi true (g_name a) (getz rest 0) && name_end_b pi true rest && next_not_eq_b rest
   | VUnq w1 w2 x =>
       all_ws_b w1 && all_ws_b w2 && (negb (nil_b (g_name a)) || nil_b w1) &&
-      name_run_b true (g_name a) (getz (w1 ++ [61]) 0) &&
-      name_run_b false x (getz rest 0) && name_end_b false rest &&
+      name_run_b pi true (g_name a) (getz (w1 ++ [61]) 0) &&
+      name_run_b pi false x (getz rest 0) && name_end_b pi false rest &&
       negb (is_ws (getz (x ++ rest) 0)) && negb (getz (x ++ rest) 0 =? 34) && negb (getz (x ++ rest) 0 =? 39)
   | VQuo w1 w2 q x =>
       all_ws_b w1 && all_ws_b w2 && (negb (nil_b (g_name a)) || nil_b w1) &&
-      name_run_b true (g_name a) (getz (w1 ++ [61]) 0) &&
-      ((q =? 34) || (q =? 39)) && forallb (fun c => negb (c =? q) && negb (c =? 0)) x
+      name_run_b pi true (g_name a) (getz (w1 ++ [61]) 0) &&
+      ((q =? 34) || (q =? 39)) && forallb (fun c => negb (c =? q) && negb (c =? 0)) x && (negb pi || no_pi_end_b x)
+  | VQuoCut w1 w2 q x =>
+      all_ws_b w1 && all_ws_b w2 && (negb (nil_b (g_name a)) || nil_b w1) &&
+      name_run_b pi true (g_name a) (getz (w1 ++ [61]) 0) &&
+      ((q =? 34) || (q =? 39)) && forallb (fun c => negb (c =? q) && negb (c =? 0)) x && no_pi_end_b x &&
+      pi && match rest with c :: c1 :: _ => (c =? 63) && (c1 =? 62) | _ => false end
   end.
 
-Fixpoint gattrs_okb (l : list gattr) (tail : list Z) : bool :=
+Fixpoint gattrs_okb (pi : bool) (l : list gattr) (tail : list Z) : bool :=
   match l with
   | [] => true
-  | a :: t => gattr_okb a (render_gattrs t ++ tail) && gattrs_okb t tail
+  | a :: t => gattr_okb pi a (render_gattrs t ++ tail) && gattrs_okb pi t tail
   end.
 
 Definition closer_tyb (k : ttype) : bool :=
@@ -114,7 +132,8 @@ Definition closer_tyb (k : ttype) : bool :=
 
 Definition itag_okb (pi : bool) (n : list Z) (gs : list gattr) (ws : list Z) (k : ttype) : bool :=
   is_name_b false n && (pi || negb (getz n 0 =? 33)) && all_ws_b ws && closer_tyb k &&
-  gattrs_okb gs (ws ++ closer_bytes k) && name_end_b false (render_gattrs gs ++ ws ++ closer_bytes k).
+  (negb pi || match k with TStartTagClosePI => true | _ => false end) &&
+  gattrs_okb pi gs (ws ++ closer_bytes k) && name_end_b pi false (render_gattrs gs ++ ws ++ closer_bytes k).
 
 
 Definition item_okb (it : item) : bool :=
@@ -123,7 +142,7 @@ Definition item_okb (it : item) : bool :=
   | IComment b => nz_b b && no_occ_b pat_comment_end b
   | ICdata b => nz_b b && no_occ_b pat_cdata_end b
   | IDoctype ps => forallb dpiece_okb ps
-  | IPI t attrs ws => is_name_b false t && forallb attr_okb attrs && all_ws_b ws
+  | IPI t attrs ws => is_name_b false t && forallb attr_okb attrs && all_ws_b ws && forallb (fun a => no_pi_end_b (a_val a)) attrs
   | IStart n attrs ws void => is_name_b false n && negb (getz n 0 =? 33) && forallb attr_okb attrs && all_ws_b ws
   | IEnd n ws => is_name_b false n && all_ws_b ws
   | ITag pi n gs ws k => itag_okb pi n gs ws k
@@ -190,12 +209,12 @@ Proof.
   apply forallb_Forall. apply dinner_okb_sound.
 Qed.
 
-Lemma name_run_b_sound eq n nxt : name_run_b eq n nxt = true -> name_run eq n nxt.
+Lemma name_run_b_sound pi eq n nxt : name_run_b pi eq n nxt = true -> name_run pi eq n nxt.
 Proof.
   induction n as [|c t IH]; cbn [name_run_b name_run]; [auto|]. intros H. b2p. split; [assumption|apply IH; assumption].
 Qed.
 
-Lemma name_end_b_sound eq l : name_end_b eq l = true -> name_end eq l.
+Lemma name_end_b_sound pi eq l : name_end_b pi eq l = true -> name_end pi eq l.
 Proof.
   destruct l as [|c t]; [discriminate|]. cbn [name_end_b]. intros H. b2p. exists c, t.
   split; [reflexivity|]. split; [assumption|]. intros Hc Ht. subst t.
@@ -216,10 +235,10 @@ Proof. destruct l; [discriminate|discriminate]. Qed.
 Lemma nil_imp name w1 : negb (nil_b name) || nil_b w1 = true -> name = [] -> w1 = [].
 Proof. intros H ->. cbn in H. destruct w1; [reflexivity|discriminate]. Qed.
 
-Lemma gattr_okb_sound a rest : gattr_okb a rest = true -> gattr_ok a rest.
+Lemma gattr_okb_sound pi a rest : gattr_okb pi a rest = true -> gattr_ok pi a rest.
 Proof.
   unfold gattr_okb, gattr_ok. intros H. apply andb_true_iff in H. destruct H as (Hl & Hv).
-  split; [apply all_ws_b_sound; exact Hl|]. destruct (g_val a) as [|w1 w2 x|w1 w2 q x].
+  split; [apply all_ws_b_sound; exact Hl|]. destruct (g_val a) as [|w1 w2 x|w1 w2 q x|w1 w2 q x].
   - repeat (apply andb_true_iff in Hv; destruct Hv as (Hv & ?)).
     split; [apply nil_b_false; assumption|]. split; [apply name_run_b_sound; assumption|].
     split; [apply name_end_b_sound; assumption|apply next_not_eq_b_sound; assumption].
@@ -231,10 +250,21 @@ Proof.
   - repeat (apply andb_true_iff in Hv; destruct Hv as (Hv & ?)).
     split; [apply all_ws_b_sound; assumption|]. split; [apply all_ws_b_sound; assumption|].
     split; [apply nil_imp; assumption|]. split; [apply name_run_b_sound; assumption|].
-    split; [lia|]. match goal with H : forallb _ x = true |- _ => revert H end. apply forallb_Forall. intros c Hc. lia.
+    split; [lia|]. split.
+    + match goal with H : forallb _ x = true |- _ => revert H end. apply forallb_Forall. intros c Hc. lia.
+    + intros ->. apply no_pi_end_b_sound. match goal with H : negb true || _ = true |- _ => exact H end.
+  - repeat (apply andb_true_iff in Hv; destruct Hv as (Hv & ?)).
+    split; [apply all_ws_b_sound; assumption|]. split; [apply all_ws_b_sound; assumption|].
+    split; [apply nil_imp; assumption|]. split; [apply name_run_b_sound; assumption|].
+    split; [lia|]. split.
+    { match goal with H : forallb _ x = true |- _ => revert H end. apply forallb_Forall. intros c Hc. lia. }
+    split; [apply no_pi_end_b_sound; assumption|]. split; [assumption|].
+    destruct rest as [|c [|c1 t]]; try discriminate. exists t.
+    match goal with H : (c =? 63) && (c1 =? 62) = true |- _ => apply andb_true_iff in H; destruct H end.
+    f_equal; [lia|f_equal; lia].
 Qed.
 
-Lemma gattrs_okb_sound l tail : gattrs_okb l tail = true -> gattrs_ok l tail.
+Lemma gattrs_okb_sound pi l tail : gattrs_okb pi l tail = true -> gattrs_ok pi l tail.
 Proof.
   induction l as [|a t IH]; cbn [gattrs_okb gattrs_ok]; [auto|]. intros H. b2p.
   split; [apply gattr_okb_sound; assumption|apply IH; assumption].
@@ -247,6 +277,8 @@ Proof.
   { intros ->. cbn [orb] in *. lia. }
   split; [apply all_ws_b_sound; assumption|]. split.
   { unfold is_closer_ty. destruct k; try discriminate; auto. }
+  split.
+  { intros ->. cbn [negb orb] in *. destruct k; try discriminate; reflexivity. }
   split; [apply gattrs_okb_sound; assumption|apply name_end_b_sound; assumption].
 Qed.
 
@@ -259,8 +291,10 @@ Proof.
   - split; [apply nz_b_sound; assumption|apply no_occ_b_sound; assumption].
   - split; [apply nz_b_sound; assumption|apply no_occ_b_sound; assumption].
   - revert H. apply forallb_Forall. apply dpiece_okb_sound.
-  - split; [apply is_name_b_sound; assumption|]. split; [|apply all_ws_b_sound; assumption].
-    match goal with H : forallb attr_okb attrs = true |- _ => revert H end. apply forallb_Forall. apply attr_okb_sound.
+  - split; [apply is_name_b_sound; assumption|]. split; [|split; [apply all_ws_b_sound; assumption|]].
+    + match goal with H : forallb attr_okb attrs = true |- _ => revert H end. apply forallb_Forall. apply attr_okb_sound.
+    + match goal with H : forallb (fun a => no_pi_end_b (a_val a)) attrs = true |- _ => revert H end.
+      apply forallb_Forall. intros a. apply no_pi_end_b_sound.
   - split; [apply is_name_b_sound; assumption|]. split; [assumption|]. split; [|apply all_ws_b_sound; assumption].
     match goal with H : forallb attr_okb attrs = true |- _ => revert H end. apply forallb_Forall. apply attr_okb_sound.
   - split; [apply is_name_b_sound; assumption|apply all_ws_b_sound; assumption].
@@ -330,32 +364,53 @@ Proof.
   split; [reflexivity|]. split; [reflexivity|]. intros void. destruct void; split; reflexivity.
 Qed.
 
-(* <?p a>b?><a/> as the lexer sees it: a PI opener with the piece " a" closed by '>', then text *)
+(* <?p a>b?><a/> as the lexer sees it: the PI opener <?p , the piece " a>b" (a name only: '>' does not end a
+   processing instruction), the closer ?> ; then the element *)
 Definition ex_pi_gt_items : list item :=
-  [ ITag true [112] [mkG [32] [97] VNone] [] TStartTagClose; IText [98; 63; 62]; IStart [97] [] [] true ].
+  [ ITag true [112] [mkG [32] [97; 62; 98] VNone] [] TStartTagClosePI; IStart [97] [] [] true ].
 
 Example ex_pi_gt_items_ok : doc_ok ex_pi_gt_items.
+Proof. apply doc_okb_sound. vm_compute. reflexivity. Qed.
+
+(* <?php if ($a > $b) echo "x"; ?> : free-form content is returned as one Attribute token per
+   whitespace-separated piece *)
+Definition ex_php_items : list item :=
+  [ ITag true [112; 104; 112]
+      [ mkG [32] [105; 102] VNone; mkG [32] [40; 36; 97] VNone; mkG [32] [62] VNone; mkG [32] [36; 98; 41] VNone;
+        mkG [32] [101; 99; 104; 111] VNone; mkG [32] [34; 120; 34; 59] VNone ] [32] TStartTagClosePI ].
+
+Example ex_php_items_ok : doc_ok ex_php_items.
+Proof. apply doc_okb_sound. vm_compute. reflexivity. Qed.
+
+(* <?p a=QUOTE b?><a/> : the quoted value is cut by the instruction's ?> (fix 5eea3cf of /repo) *)
+Definition ex_pi_quote : list Z := [60; 63; 112; 32; 97; 61; 34; 98; 63; 62; 60; 97; 47; 62].
+Definition ex_pi_quote_items : list item :=
+  [ ITag true [112] [mkG [32] [97] (VQuoCut [] [] 34 [98])] [] TStartTagClosePI; IStart [97] [] [] true ].
+
+Example ex_pi_quote_items_ok : doc_ok ex_pi_quote_items.
+Proof. apply doc_okb_sound. vm_compute. reflexivity. Qed.
+
+Theorem xml_pi_quote_exact_proof :
+  render_doc ex_pi_quote_items = ex_pi_quote /\
+  lexes (xml_init ex_pi_quote) (expect_doc ex_pi_quote_items) 1 /\
+  expect_doc ex_pi_quote_items =
+    [ (TStartTagPI, Some [60; 63; 112], Some [112], None);
+      (TAttribute, Some [32; 97; 61; 34; 98], Some [97], Some [34; 98]);
+      (TStartTagClosePI, Some [63; 62], None, None);
+      (TStartTag, Some [60; 97], Some [97], None); (TStartTagCloseVoid, Some [47; 62], None, None) ].
 Proof.
-  split.
-  - unfold ex_pi_gt_items. repeat apply Forall_cons; try apply Forall_nil; cbn [item_ok].
-    + split; [split; [discriminate|repeat constructor]|]. split; [discriminate|]. split; [constructor|].
-      split; [left; reflexivity|]. split.
-      * cbn [gattrs_ok render_gattrs map concat app closer_bytes]. split; [|exact I].
-        split; [repeat constructor|]. cbn [g_val g_name]. split; [discriminate|]. split; [split; [reflexivity|exact I]|].
-        split.
-        -- exists 62, []. split; [reflexivity|]. split; [reflexivity|]. intros [H|H]; discriminate.
-        -- exists [], 62, []. split; [reflexivity|]. split; [constructor|]. split; [reflexivity|discriminate].
-      * exists 32, [97; 62]. split; [reflexivity|]. split; [reflexivity|]. intros [H|H]; discriminate.
-    + split; [discriminate|repeat constructor; discriminate].
-    + split; [split; [discriminate|repeat constructor]|]. split; [discriminate|]. split; constructor.
-  - cbn. intuition discriminate.
+  assert (E : render_doc ex_pi_quote_items = ex_pi_quote) by (vm_compute; reflexivity).
+  split; [exact E|]. split; [|vm_compute; reflexivity]. rewrite <- E.
+  apply xml_wellformed_tokens_proof. apply ex_pi_quote_items_ok.
 Qed.
 
 Theorem xml_pi_content_exact_proof :
   render_doc ex_pi_gt_items = ex_pi_gt /\
   lexes (xml_init ex_pi_gt) (expect_doc ex_pi_gt_items) 1 /\
-  map (fun t => fst (fst (fst t))) (expect_doc ex_pi_gt_items) =
-    [TStartTagPI; TAttribute; TStartTagClose; TText; TStartTag; TStartTagCloseVoid].
+  expect_doc ex_pi_gt_items =
+    [ (TStartTagPI, Some [60; 63; 112], Some [112], None); (TAttribute, Some [32; 97; 62; 98], Some [97; 62; 98], None);
+      (TStartTagClosePI, Some [63; 62], None, None);
+      (TStartTag, Some [60; 97], Some [97], None); (TStartTagCloseVoid, Some [47; 62], None, None) ].
 Proof.
   assert (E : render_doc ex_pi_gt_items = ex_pi_gt) by (vm_compute; reflexivity).
   split; [exact E|]. split; [|vm_compute; reflexivity]. rewrite <- E.
